@@ -73,9 +73,10 @@ func (e *Engine) intrinsic(fr *Frame, st *State, ins ssa.Instruction, key string
 	}
 	if key == "sync.(*Map).Range" && len(args) == 2 && args[1].Clo != nil {
 		// the callback runs an unknown number of times: forget everything it may write
-		cfn := args[1].Clo.Fn.(*ssa.Function)
+		ci := 1
+		cfn := args[ci].Clo.Fn.(*ssa.Function)
 		ws := newWriteSet()
-		sub := &Frame{fn: cfn, cellOf: map[*ssa.Alloc]int{}, free: args[1].Clo.Bindings}
+		sub := &Frame{fn: cfn, cellOf: map[*ssa.Alloc]int{}, free: args[ci].Clo.Bindings}
 		e.blocksWrites(sub, cfn.Blocks, ws, fr.depth+1, map[*ssa.Function]bool{cfn: true})
 		if ws.all {
 			restore := e.spareForWrites(st, ws)
